@@ -268,6 +268,7 @@ static int recv_events(m_ctx_t *c, int timeout) {
             }
             err = errno; // Store any errno that happened while consuming events
             bool msg_consumed = false;
+            bool stale = false;
 
             if (err == 0) {
                 /* 
@@ -278,9 +279,15 @@ static int recv_events(m_ctx_t *c, int timeout) {
                 if (p && p->flags & M_SRC_ONESHOT) {
                     if (p->type != M_SRC_TYPE_PS) {
                         m_bst_remove(mod->srcs[p->type], p);
-                    } else if (m_map_get(mod->subscriptions, p->ps_src.topic) == p) {
-                        /* (the topic may have been subscribed again, with other flags, while this message was in flight) */
-                        m_map_remove(mod->subscriptions, p->ps_src.topic);
+                    } else if (p->ps_src.fired) {
+                        /* Matched while the subscription had not fired yet, but it fires once: not delivered */
+                        stale = true;
+                    } else {
+                        p->ps_src.fired = true;
+                        if (m_map_get(mod->subscriptions, p->ps_src.topic) == p) {
+                            /* (the topic may have been subscribed again, with other flags, while this message was in flight) */
+                            m_map_remove(mod->subscriptions, p->ps_src.topic);
+                        }
                     }
                 }
                 
@@ -289,7 +296,7 @@ static int recv_events(m_ctx_t *c, int timeout) {
                  * In this case, check that any message was actually received,
                  * and it was from a know source type.
                  */
-                if (msg->fd_evt) {
+                if (msg->fd_evt && !stale) {
                     recved++;
                     if (msg->type != M_SRC_TYPE_PS || !msg->ps_evt->topic || strcmp(msg->ps_evt->topic, M_PS_MOD_POISONPILL)) {
                         push_evt(mod, evt);
